@@ -88,7 +88,9 @@ mut("C17", "close-without-halting-lock-second-terminate", IO,
 mut("C17", "recordings-not-closed", IO,
     "        while self._recordings:\n          recst = "
     "self._recordings[-1]\n          recst.stop()\n          "
-    "recst.take(inf) # Ensure it'll be closed\n",
+    "for unused in recst._rec: # Ensure it'll be closed, whatever had\n"
+    "            pass                    # been done in place with the "
+    "stream\n",
     "        del self._recordings[:]\n")
 
 mut("C17", "device-opened-with-default-channels", IO,
